@@ -18,6 +18,7 @@ import sys
 import tempfile
 import time
 
+from mmverif import common
 from mmverif.selftest import mutgen
 
 PROPS = {
@@ -74,7 +75,7 @@ def run_one(m, tmp):
     t1 = time.time()
     try:
       r = subprocess.run([sys.executable, '-m', 'mmverif.check', pid,
-                          '--tier', 'quick'], cwd='/verif', env=env,
+                          '--tier', 'quick'], cwd=common.VERIF, env=env,
                          capture_output=True, text=True, timeout=3600)
       rc = r.returncode
       lines = [l for l in r.stdout.splitlines() if l.startswith(
